@@ -497,11 +497,15 @@ class Metrics:
         if not cls.collecting:
             return
 
-        for rank in all_matches:
-            if rank not in cls.line_order:
+        #
+        # Walk the registered ranks in loop order (not in the hash order of
+        # the set) so that the outcome is a function of the calls made
+        #
+        for rank in list(cls.line_order):
+            if rank not in all_matches:
                 continue
 
-            for src_rank in cls.all_rank_matches[rank]:
+            for src_rank in sorted(cls.all_rank_matches[rank], key=str):
                 if src_rank in cls.line_order or src_rank in cls.rank_matches:
                     continue
 
